@@ -1,1 +1,2 @@
 import Properties.C11
+import Properties.C04
